@@ -50,10 +50,17 @@ func init() {
 							if route == "root" && len(f) != 1 {
 								continue
 							}
+							kind := struct {
+								errno   string
+								persist bool
+							}{}
 							run := func(failAt int) (err error, calls int, pan string, snap fsx.Snap) {
 								j := fsx.NewJail("c06f")
 								defer j.Remove()
-								mos.Reset(failAt)
+								mos.ResetKind(failAt, kind.errno, kind.persist)
+								if failAt > 0 {
+									mos.Budget = 2000 // (a fault-free Mkdir of these trees makes at most a few dozen calls)
+								}
 								opts := []gtree.Option{gtree.WithTargetDir(j.Target), gtree.WithFileExtensions(ex)}
 								pan = sut.Guard(func() {
 									if route == "root" {
@@ -85,6 +92,41 @@ func init() {
 									c.Violation("C06|fs-fault-reported-as-success", fmt.Sprintf("doc=%q exts=%v route=%s: file-system call %d of %d failed with EIO but Mkdir returned nil (fs now %v, plan %v)", doc, ex, route, jx, n0, snap, model.Plan(model.Merge(f), ex)), len(doc)+jx, nil)
 								}
 							}
+							// other kinds of failure: what the call reports, and a resource that stays exhausted (every call from
+							// the k-th on fails). The operation ends, and when it returns nil the directory holds the whole tree
+							// (a retry that succeeded is fine; "exists" reported for something that is not the directory wanted,
+							// or giving up quietly, is not)
+							plan := model.Plan(model.Merge(f), ex)
+							for _, k := range []struct {
+								errno   string
+								persist bool
+							}{{"EEXIST", false}, {"EMFILE", false}, {"EMFILE", true}, {"ENOSPC", true}, {"EACCES", false}, {"EINTR", false}, {"EIO", true}} {
+								kind = k
+								for jx := 1; jx <= n0; jx++ {
+									err, _, pan, snap := run(jx)
+									c.Eval()
+									c.Trans(1)
+									desc := fmt.Sprintf("doc=%q exts=%v route=%s: file-system call %d of %d fails with %s (from then on: %v)", doc, ex, route, jx, n0, k.errno, k.persist)
+									switch {
+									case strings.Contains(pan, "keeps retrying"):
+										c.Violation("C06|fs-fault-retried-forever|"+k.errno, desc+": "+pan, len(doc)+jx, nil)
+									case pan != "":
+										c.Violation("C06|panic-under-fs-fault", desc+": "+pan, len(doc)+jx, nil)
+									case err == nil:
+										complete := true
+										kinds := snap.Kinds()
+										for p, want := range plan {
+											if kinds[p] != want {
+												complete = false
+											}
+										}
+										if !complete {
+											c.Violation("C06|fs-fault-reported-as-success|"+k.errno, fmt.Sprintf("%s but Mkdir returned nil and the tree is incomplete (fs now %v, plan %v)", desc, snap, plan), len(doc)+jx, nil)
+										}
+									}
+								}
+							}
+							kind.errno, kind.persist = "", false
 							if c.R.States%40 == 1 {
 								c.Sample(map[string]any{"doc": doc, "exts": ex, "route": route, "fs_calls_fault_free": n0})
 							}
